@@ -133,6 +133,22 @@ class Enum(Ty):
         return hash(('enum', self.name))
 
 
+class StrArr(Ty):
+    """str[N] — value: python list of N 8-bit terms"""
+
+    def __init__(self, n):
+        self.n = n
+
+    def sway(self):
+        return f'str[{self.n}]'
+
+    def __eq__(self, o):
+        return isinstance(o, StrArr) and o.n == self.n
+
+    def __hash__(self):
+        return hash(('str', self.n))
+
+
 U8, U16, U32, U64, U256 = UInt(8), UInt(16), UInt(32), UInt(64), UInt(256)
 BOOL = Bool()
 B256T = B256()
@@ -174,6 +190,8 @@ def default_value(t):
         return z3.BitVecVal(0, 256)
     if isinstance(t, Unit):
         return None
+    if isinstance(t, StrArr):
+        return [z3.BitVecVal(0x20, 8) for _ in range(t.n)]
     if isinstance(t, Tuple):
         return [default_value(x) for x in t.ts]
     if isinstance(t, Array):
@@ -190,6 +208,8 @@ def ite_value(c, a, b, t):
         return z3.If(c, a, b)
     if isinstance(t, Unit):
         return None
+    if isinstance(t, StrArr):
+        return [z3.If(c, x, y) for x, y in zip(a, b)]
     if isinstance(t, Tuple):
         return [ite_value(c, x, y, tt) for x, y, tt in zip(a, b, t.ts)]
     if isinstance(t, Array):
@@ -208,6 +228,8 @@ def eq_value(a, b, t):
         return a == b
     if isinstance(t, Unit):
         return z3.BoolVal(True)
+    if isinstance(t, StrArr):
+        return z3.And(*[x == y for x, y in zip(a, b)]) if t.n else z3.BoolVal(True)
     if isinstance(t, Tuple):
         return z3.And(*[eq_value(x, y, tt) for x, y, tt in zip(a, b, t.ts)]) if t.ts else z3.BoolVal(True)
     if isinstance(t, Array):
@@ -238,6 +260,8 @@ def abi_encode(v, t):
         return [(T, byte_split(v, 32))]
     if isinstance(t, Unit):
         return [(T, [])]
+    if isinstance(t, StrArr):
+        return [(T, list(v))]
     if isinstance(t, (Tuple, Struct, Array)):
         if isinstance(t, Tuple):
             parts = list(zip(v, t.ts))
@@ -272,6 +296,8 @@ def abi_size_fixed(t):
         return 32
     if isinstance(t, Unit):
         return 0
+    if isinstance(t, StrArr):
+        return t.n
     if isinstance(t, Tuple):
         s = [abi_size_fixed(x) for x in t.ts]
     elif isinstance(t, Struct):
@@ -302,6 +328,8 @@ def abi_decode(bs, t):
         return z3.Concat(*bs[:32]), z3.BoolVal(True), bs[32:]
     if isinstance(t, Unit):
         return None, z3.BoolVal(True), bs
+    if isinstance(t, StrArr):
+        return list(bs[:t.n]), z3.BoolVal(True), bs[t.n:]
     if isinstance(t, (Tuple, Struct, Array)):
         if isinstance(t, Tuple):
             tys = t.ts
